@@ -193,8 +193,9 @@ func (a *alloc) pool(name string) ([]int, bool) {
 	return nil, false
 }
 
-// AllocateIPv4: the unit the session already holds in the pool, else the lowest free unit of
-// the pool; a session holds at most one IPv4 unit (moving to another pool frees the old one).
+// AllocateIPv4: the unit the session already holds in the pool, else the lowest free unit of the
+// pool. Nothing is ever freed except by ReleaseIPv4 (like the allocators cmd/bng wires in: an
+// address of another pool the session held before stays allocated).
 func (a *alloc) AllocateIPv4(ctx context.Context, session *subscriber.Session, poolID string) (net.IP, net.IPMask, net.IP, error) {
 	units, ok := a.pool(poolID)
 	if !ok {
@@ -218,11 +219,6 @@ func (a *alloc) AllocateIPv4(ctx context.Context, session *subscriber.Session, p
 	if got == 0 {
 		a.mu.Unlock()
 		return nil, nil, nil, errors.New("pool exhausted")
-	}
-	for u, id := range a.own4 {
-		if id == session.ID && u != got {
-			delete(a.own4, u)
-		}
 	}
 	a.own4[got] = session.ID
 	a.mu.Unlock()
